@@ -175,7 +175,7 @@ Qed.
 Lemma relax_w_dec G1 v st w x d : sD st x = Some d ->
   exists d', sD (relax_w G1 v st w) x = Some d' /\ d' <= d.
 Proof.
-  intros Hx. unfold relax_w. destruct (xlt _ _) eqn:E1; [|destruct (xeq _ _); cbn [sD]; exists d; split; [exact Hx|lia]].
+  intros Hx. unfold relax_w. destruct (xlt _ _) eqn:E1; [|destruct (xeq _ _); cbn [sD]; exists d; (split; [exact Hx|lia])].
   cbn [sD]. unfold vupd. destruct (Nat.eqb_spec x w) as [->|Hne]; [|exists d; split; [exact Hx|lia]].
   rewrite Hx in E1. destruct (xadd (sD st v) (G1 v w)) as [y|]; [|discriminate].
   cbn in E1. apply Z.ltb_lt in E1. exists y. split; [reflexivity|lia].
@@ -188,7 +188,7 @@ Proof.
   - cbn [sD]. rewrite vupd_same. exists (dv + G1 v w). split; [reflexivity|lia].
   - destruct (sD st w) as [dw|] eqn:Ew; [|cbn in E1; discriminate].
     cbn in E1. apply Z.ltb_ge in E1.
-    destruct (xeq (Some (dv + G1 v w)) (Some dw)); cbn [sD]; rewrite Ew; exists dw; split; try reflexivity; lia.
+    destruct (xeq (Some (dv + G1 v w)) (Some dw)); cbn [sD]; rewrite Ew; exists dw; (split; [reflexivity|lia]).
 Qed.
 Lemma fold_relax_w_dec G1 v l : forall s x d, sD s x = Some d ->
   exists d', sD (fold_left (relax_w G1 v) l s) x = Some d' /\ d' <= d.
@@ -608,8 +608,8 @@ Proof.
       exists st2. split; [exact E2|].
       split; [|unfold closed; rewrite ED; intros v w dv Hv Hw Edv Hg;
                assert (Hv1 : S1 v = false) by (destruct (S1 v) eqn:ES; [rewrite (Hnone v Hv ES) in Edv; discriminate|reflexivity]);
-               destruct (Hcl1 v w Hv Hw Hv1 Hg) as (dv' & dw & E1 & E2 & Hle);
-               exists dw; split; [exact E2|]; assert (dv' = dv) by congruence; lia].
+               destruct (Hcl1 v w Hv Hw Hv1 Hg) as (dv' & dw & Ec1 & Ec2 & Hle);
+               exists dw; split; [exact Ec2|]; assert (dv' = dv) by congruence; lia].
       apply (queue_ok_intro n u st2 un); rewrite ?Evis, ?ED, ?ENP, ?EP, ?Eqf; auto.
       * apply wherev_NoDup.
       * intros x. rewrite Hun. split.
